@@ -503,8 +503,62 @@ def run(ctx):
                                                 'what': 'output under PYTHONHASHSEED=%s differs from PYTHONHASHSEED=%s: %s %r / %r' % (s, ref_seed, d[0], d[1], d[2]),
                                                 'input': {'texts': pool[idx][1], 'seeds': [ref_seed, s]}})
                     break
+    dialect_histories(ctx)
     res.sample({'pool_labels': [p[0] for p in pool][:20]})
     res.sample({'field_tables': {k: {kk: v[kk] for kk in ('reads', 'writes', 'resets')} for k, v in facts.items() if k in ('symtable',)}})
+
+
+DIALECT_TEXTS = {
+    'v1-keywords': ('smiV1', 'ACME-D1-MIB DEFINITIONS ::= BEGIN\nIMPORTS enterprises, NetworkAddress FROM RFC1155-SMI OBJECT-TYPE FROM RFC-1212;\n'
+                    'acmeAddr OBJECT-TYPE SYNTAX NetworkAddress ACCESS read-only STATUS mandatory ::= { enterprises 70 }\n'
+                    'AcmeStr ::= OCTET STRING (SIZE (0..MAX))\nEND\n'),
+    'v1-relaxed': ('smiV1Relaxed', 'ACME-D2-MIB DEFINITIONS ::= BEGIN\nIMPORTS enterprises, NetworkAddress, Counter FROM RFC1155-SMI OBJECT-TYPE FROM RFC-1212;\n'
+                   'acmeCnt OBJECT-TYPE SYNTAX Counter ACCESS read-only STATUS mandatory ::= { enterprises 71 }\n'
+                   'acmeAdr OBJECT-TYPE SYNTAX NetworkAddress ACCESS read-only STATUS mandatory ::= { enterprises 72 }\nEND\n'),
+    'v2-plain-names': ('smiV2', 'ACME-D3-MIB DEFINITIONS ::= BEGIN\nIMPORTS enterprises, OBJECT-TYPE FROM SNMPv2-SMI NetworkAddress FROM RFC1155-SMI;\n'
+                       'acmeAddr OBJECT-TYPE SYNTAX NetworkAddress MAX-ACCESS read-only STATUS current DESCRIPTION "a" ::= { enterprises 73 }\nEND\n'),
+    'v2-own-type': ('smiV2', 'ACME-D4-MIB DEFINITIONS ::= BEGIN\nIMPORTS enterprises FROM SNMPv2-SMI;\nNetworkAddress ::= OCTET STRING (SIZE (4))\n'
+                    'acmeN OBJECT IDENTIFIER ::= { enterprises 74 }\nEND\n'),
+    'v2-forbidden': ('smiV2', 'ACME-D5-MIB DEFINITIONS ::= BEGIN\nIMPORTS enterprises FROM SNMPv2-SMI;\n\n\nAcmeStr ::= OCTET STRING (SIZE (0..MAX))\nEND\n'),
+    'v1-bad': ('smiV1', 'ACME-D6-MIB DEFINITIONS ::= BEGIN\nIMPORTS enterprises FROM RFC1155-SMI;\nacme MAX OBJECT IDENTIFIER ::= { enterprises 75 }\nEND\n'),
+}
+
+
+def dialect_run(steps):
+    """outcomes of the steps, parsed one after the other in one fresh interpreter"""
+    env = dict(os.environ, PYSMI_REPO=REPO)
+    p = subprocess.run([sys.executable, os.path.join(HARNESS, 'impl', 'dialect_worker.py')], input=json.dumps({'steps': steps}),
+                       stdout=subprocess.PIPE, stderr=subprocess.PIPE, env=env, text=True, timeout=600)
+    if p.returncode != 0:
+        return [{'error': 'other: worker failed: ' + p.stderr[-300:]}] * len(steps)
+    return json.loads(p.stdout)
+
+
+def dialect_histories(ctx):
+    """(E) parsers of different dialects in one process: a step's outcome is its outcome alone in a process of its own"""
+    from concurrent.futures import ThreadPoolExecutor
+    res, rng = ctx.res, ctx.rng
+    names = list(DIALECT_TEXTS)
+    seqs = [[a, b] for a in names for b in names if a != b and DIALECT_TEXTS[a][0] != DIALECT_TEXTS[b][0]]
+    for _ in range(6 if ctx.tier == 'quick' else 60):
+        seqs.append([rng.choice(names) for _ in range(rng.randint(3, 5))])
+    with ThreadPoolExecutor(max_workers=8) as ex:
+        alone = dict(zip(names, ex.map(lambda n: dialect_run([list(DIALECT_TEXTS[n])])[0], names)))
+        together = list(ex.map(lambda sq: dialect_run([list(DIALECT_TEXTS[n]) for n in sq]), seqs))
+    for n in names:
+        if str(alone[n].get('error', '')).startswith('other'):
+            res.oracle_failures.append({'key': 'dialect-history', 'what': '%s alone: %s' % (n, alone[n]['error']), 'input': {'dialect_steps': [n]}})
+    for sq, outs in zip(seqs, together):
+        res.case(('dialect-history', tuple(sq)), True)
+        res.count('dialect-histories')
+        for pos, (n, got) in enumerate(zip(sq, outs)):
+            if got != alone[n]:
+                res.oracle_failures.append({'key': 'dialect-history',
+                                            'what': 'step %d (%s under %s) after %s: %s; alone in a process of its own: %s' % (
+                                                pos, n, DIALECT_TEXTS[n][0], sq[:pos], str({k: v for k, v in got.items() if k != 'ast'} or 'a different tree')[:200],
+                                                str({k: v for k, v in alone[n].items() if k != 'ast'} or 'a tree')[:200]),
+                                            'input': {'dialect_steps': sq[:pos + 1]}})
+                break
 
 
 def search(ctx):
@@ -513,6 +567,11 @@ def search(ctx):
 
 
 def replay(payload):
+    if 'dialect_steps' in payload.get('input', {}):
+        sq = payload['input']['dialect_steps']
+        outs = dialect_run([list(DIALECT_TEXTS[n]) for n in sq])
+        alone = dialect_run([list(DIALECT_TEXTS[sq[-1]])])[0]
+        return {'fails': outs[-1] != alone or str(alone.get('error', '')).startswith('other')}
     inp = payload['input']
     key = payload.get('key', '')
     if key == 'compile-history':
